@@ -30,6 +30,25 @@ Proof.
   destruct (rE r) as [|e E]; [reflexivity|]. cbn [existsb isnil]. rewrite (H e (or_introl eq_refl)). reflexivity.
 Qed.
 
+Lemma prepared_dim (r : raw) :
+  (forall e, In e (rE r) -> edge_valid (zlen (rV r)) e = true) ->
+  compute_dimensionality (isnil (rC r)) (isnil (rF r)) (negb (existsb (edge_valid (zlen (rV r))) (rE r))) = dim_raw r.
+Proof.
+  intros H. unfold dim_raw. f_equal.
+  destruct (rE r) as [|e E]; [reflexivity|]. cbn [existsb isnil]. rewrite (H e (or_introl eq_refl)). reflexivity.
+Qed.
+
+(* load(path, dim=d): a dimension below that of the content never demotes the object (no element kind is dropped), and
+   leaving `dim` out is the plain load *)
+Lemma class_loaded_dim (r : raw) (d : Z) :
+  (forall e, In e (rE r) -> edge_valid (zlen (rV r)) e = true) -> d <= dim_raw r ->
+  class_of_loaded_dim (Some d) r = Some (implied_class r) /\ class_of_loaded_dim None r = class_of_loaded r.
+Proof.
+  intros H Hd. unfold class_of_loaded_dim, class_of_loaded. rewrite (prepared_dim r H). unfold instanciate_dim. split.
+  - rewrite Z.max_r by exact Hd. apply class_implied.
+  - f_equal. apply Z.max_r. unfold dim_raw, compute_dimensionality. destruct (isnil (rC r)), (isnil (rF r)), (isnil (rE r)); cbn; lia.
+Qed.
+
 Lemma filter_len_or a b (els : list (list Z)) :
   Forall (fun e => zlen e = a \/ zlen e = b) (filter (len_is a) els ++ filter (len_is b) els).
 Proof.
